@@ -35,7 +35,7 @@ def run(ck):
                "e2e: one generated (75%) or corpus (25%) program per round x {trivia, exotic blankspace, parens+commas, rename}; "
                "distinct by source text; non-trivial = more than 3 tokens")
     ck.trusted = ["Lean kernel", "axioms: propext, Classical.choice, Quot.sound", "Go harness and wgsl.VerifTokens hook"]
-    if not ck.prove(["Naga.Props.C19"]):
+    if not ck.prove(["Naga.Props.C19", "Naga.Props.LexLiteral"]):
         ck.tie_broken("theorems", "Naga.Props.C19 no longer checks", str(ck.proof_failed))
     if not ck.build_harness() or not ck.driver():
         return
